@@ -25,6 +25,10 @@ func c12Images(tier string) []c12Image {
 		{Name: "rotated", Cfg: defaultCfg, Trace: "put a L; put b L; put a L; del b", Dense: true},
 		{Name: "merge-unadopted", Cfg: defaultCfg, Trace: "put a L; put b L; put a S; del b; put b S; merge", Dense: true},
 		{Name: "merge-adopted", Cfg: defaultCfg, Trace: "put a L; put b L; put a S; merge; restart; put b S", Dense: true},
+		// two rewritten files: the first one is indexed through the hint only (never scanned by the adopting Open)
+		{Name: "merge-unadopted-2files", Cfg: defaultCfg, Trace: "put a L; put b L; put a L; put b L; merge", Dense: true},
+		// small records deep inside a 32 KiB block (a damaged chunk length can reach beyond the block there)
+		{Name: "deep-in-block", Cfg: blk, Trace: "put b F 20000; put a S; put b S; put a F 9000; put b S; put a S"},
 		{Name: "multi-chunk", Cfg: blk, Trace: "put a S; put b M; put a S; put b B 3; put a S"},
 	}
 	if tier == "thorough" {
@@ -40,9 +44,10 @@ func c12Images(tier string) []c12Image {
 }
 
 type builtImage struct {
-	snap *Snap
-	hist map[string]map[string]bool
-	keys []string
+	snap   *Snap
+	hist   map[string]map[string]bool
+	keys   []string
+	starts map[string][]int // rel path -> byte offsets at which records start (from the package's reader)
 }
 
 func buildImage(im c12Image) (*builtImage, error) {
@@ -60,7 +65,20 @@ func buildImage(im c12Image) (*builtImage, error) {
 	if err := w.Close(); err != nil {
 		return nil, err
 	}
-	return &builtImage{snap: takeSnap(w.Root), hist: w.Hist, keys: keysAB}, nil
+	bi := &builtImage{snap: takeSnap(w.Root), hist: w.Hist, keys: keysAB, starts: map[string][]int{}}
+	for _, dir := range []string{"db", "db-merge"} {
+		files, err := scanDataFiles(filepath.Join(w.Root, dir))
+		if err != nil {
+			continue
+		}
+		for _, f := range files {
+			rel := fmt.Sprintf("%s/%09d.data", dir, f.Fid)
+			for _, r := range f.Recs {
+				bi.starts[rel] = append(bi.starts[rel], int(r.Pos.BlockID)*32768+int(r.Pos.Offset))
+			}
+		}
+	}
+	return bi, nil
 }
 
 // fault is one single-position fault of one file of the image.
@@ -108,15 +126,21 @@ func applyFault(s *Snap, f fault) *Snap {
 }
 
 // enumFaults enumerates the faults of one file.
-func enumFaults(file string, data []byte, dense bool, visit func(f fault) bool) {
+func enumFaults(file string, data []byte, dense bool, starts []int, visit func(f fault) bool) {
 	n := len(data)
+	near := map[int]bool{}
+	for _, s := range starts {
+		for i := s; i < s+40 && i < n; i++ {
+			near[i] = true // chunk header + record header of every record
+		}
+	}
 	interesting := func(i int) bool {
 		if dense {
 			return true
 		}
-		// near every block boundary / chunk header region and a coarse stride elsewhere
+		// every record's framing, every block boundary region, the file end, and a coarse stride elsewhere
 		off := i % 32768
-		return off < 96 || off >= 32768-96 || i >= n-160 || i%997 == 0
+		return near[i] || off < 96 || off >= 32768-96 || i >= n-160 || i%997 == 0
 	}
 	for i := 0; i < n; i++ {
 		if !interesting(i) {
@@ -267,7 +291,7 @@ func c12Tasks(tier string) []Task {
 						continue
 					}
 					stop := false
-					enumFaults(file, bi.snap.Files[file], im.Dense, func(f fault) bool {
+					enumFaults(file, bi.snap.Files[file], im.Dense, bi.starts[file], func(f fault) bool {
 						n++
 						if n%slices != sl {
 							return true
